@@ -969,6 +969,12 @@ func (m *Mutex) Unlock() {
 			m.locked = false
 			return
 		}
+		// the real mutex turns this into a fatal error that takes the whole
+		// worker down; a panic is reported as what it is
+		if m.real.TryLock() {
+			m.real.Unlock()
+			panic("sync: unlock of unlocked mutex")
+		}
 		m.real.Unlock()
 		return
 	}
